@@ -58,10 +58,20 @@ type SingleRun struct {
 	ClockN    int64
 }
 
+// CancelFault cancels the operation's context just before its K-th (0-based)
+// call into the connection pool (BEGIN, a statement, a preparation, COMMIT).
+type CancelFault struct {
+	ID    int    `json:"id"`
+	K     int    `json:"k"`
+	At    string `json:"at"` // the kind of pool call the cancellation precedes
+	Fired bool   `json:"-"`
+}
+
 // Fault is one planned fault of a single-operation run.
 type Fault struct {
-	Drv  *simdrv.Fault `json:"drv,omitempty"`
-	Hook *HookFault    `json:"hook,omitempty"`
+	Drv    *simdrv.Fault `json:"drv,omitempty"`
+	Hook   *HookFault    `json:"hook,omitempty"`
+	Cancel *CancelFault  `json:"cancel,omitempty"`
 }
 
 func (f *Fault) String() string {
@@ -70,6 +80,9 @@ func (f *Fault) String() string {
 	}
 	if f.Hook != nil {
 		return fmt.Sprintf("hook_err %s.%s#%d", f.Hook.Model, f.Hook.Hook, f.Hook.Occ)
+	}
+	if f.Cancel != nil {
+		return fmt.Sprintf("cancel before pool call #%d (%s)", f.Cancel.K, f.Cancel.At)
 	}
 	d := f.Drv
 	s := fmt.Sprintf("%s %s #%d", d.Kind, d.Type, d.Occ)
@@ -92,6 +105,9 @@ func (f *Fault) Short() string {
 	}
 	if f.Hook != nil {
 		return fmt.Sprintf("hook_err:%s.%s", f.Hook.Model, f.Hook.Hook)
+	}
+	if f.Cancel != nil {
+		return "cancel:" + f.Cancel.At
 	}
 	return fmt.Sprintf("%s_%s:%s", f.Drv.Kind, f.Drv.Type, SQLSig(f.Drv.SQL))
 }
@@ -127,6 +143,9 @@ func (f *Fault) Fired(sr *SingleRun) bool {
 	if f.Hook != nil {
 		return sr.HookFired
 	}
+	if f.Cancel != nil {
+		return f.Cancel.Fired
+	}
 	return f.Drv.Fired > 0
 }
 
@@ -134,6 +153,9 @@ func (f *Fault) Fired(sr *SingleRun) bool {
 func (f *Fault) Marker() string {
 	if f.Hook != nil {
 		return HookMarker(f.Hook.ID)
+	}
+	if f.Cancel != nil {
+		return "context canceled"
 	}
 	return simdrv.Marker(f.Drv.ID)
 }
@@ -168,7 +190,7 @@ func RunMulti(o env.Options, fs []*Fault, action HookAction, do func(e *env.Env)
 			drv = append(drv, x.Drv)
 		} else if x.Hook != nil {
 			f = x
-		}
+		} // a cancellation is installed by the caller (it owns the context)
 	}
 	e.Drv.SetFaults(drv)
 	counts := map[string]int{}
@@ -261,14 +283,20 @@ func SortFaults(fs []Fault) {
 		if f.Hook != nil {
 			return fmt.Sprintf("h|%s|%s|%06d", f.Hook.Model, f.Hook.Hook, f.Hook.Occ)
 		}
+		if f.Cancel != nil {
+			return fmt.Sprintf("c|%06d", f.Cancel.K)
+		}
 		d := f.Drv
 		return fmt.Sprintf("d|%s|%s|%06d|%s|%d|%d", d.Kind, d.SQL, d.Occ, d.Type, d.Burst, d.Row)
 	}
 	sort.SliceStable(fs, func(i, j int) bool { return key(fs[i]) < key(fs[j]) })
 	for i := range fs {
-		if fs[i].Hook != nil {
+		switch {
+		case fs[i].Hook != nil:
 			fs[i].Hook.ID = i + 1
-		} else {
+		case fs[i].Cancel != nil:
+			fs[i].Cancel.ID = i + 1
+		default:
 			fs[i].Drv.ID = i + 1
 		}
 	}
